@@ -527,9 +527,18 @@ func panicSite(stderr string) (kind, msg, fn, where, stack string) {
 			continue
 		}
 		loc := ""
+		inLib := false
 		if i+1 < len(lines) {
 			if m := lineRe.FindStringSubmatch(lines[i+1]); m != nil {
 				loc = filepath.Base(m[1]) + ":" + m[2]
+				inLib = strings.HasPrefix(m[1], filepath.Join(ev.RepoDir(), "lib/go")+"/")
+			}
+		}
+		if !strings.HasPrefix(name, frugalPkg) && inLib {
+			// a closure of a library function inlined into its caller is named
+			// after the caller (pkg.caller.LibFunc.func1): the source file decides
+			if p := strings.SplitN(name, ".", 3); len(p) == 3 {
+				name = frugalPkg + p[2]
 			}
 		}
 		if strings.HasPrefix(name, frugalPkg) {
